@@ -56,6 +56,47 @@ def component_names(dump_hex):
     return [binascii.unhexlify(m).decode() for m in re.findall(r'\(component #([0-9a-f]*) ', d)]
 
 
+SHARED_CHILD = {
+    'origin.cellml': '<?xml version="1.0" encoding="UTF-8"?>\n<model xmlns="http://www.cellml.org/cellml/2.0#" xmlns:xlink="http://www.w3.org/1999/xlink" name="main">\n'
+                     '  <import xlink:href="lib.cellml"><units units_ref="U" name="U"/></import>\n  <units name="base"><unit units="ampere" prefix="milli"/></units>\n'
+                     '  <units name="ref"><unit units="metre" exponent="2"/></units>\n  <component name="c1"><variable name="x" units="U" interface="public" initial_value="1"/></component>\n'
+                     '  <component name="c2"><variable name="y" units="ref" interface="public"/><variable name="k0" units="base" initial_value="1"/></component>\n'
+                     '  <connection component_1="c1" component_2="c2"><map_variables variable_1="x" variable_2="y"/></connection>\n</model>\n',
+    'lib.cellml': '<?xml version="1.0" encoding="UTF-8"?>\n<model xmlns="http://www.cellml.org/cellml/2.0#" name="lib">\n  <units name="W"><unit units="base" exponent="3"/></units>\n'
+                  '  <units name="V"><unit units="base" exponent="2"/></units>\n  <units name="U"><unit units="V" exponent="-1"/><unit units="W" exponent="1"/><unit units="base"/></units>\n'
+                  '  <units name="base"><unit units="metre"/></units>\n</model>\n'}
+
+
+def units_import_world(rng):
+    """an imported units whose definition reaches one child units through several references (U = V^a W^b, V = base^2, W = base^3), the child's
+    name (and sometimes an intermediate one) clashing with different units of the importing model; a variable in U is connected to one in
+    the same units spelt with standard units, so the flat model is valid only if U keeps its meaning"""
+    H = '<?xml version="1.0" encoding="UTF-8"?>\n<model xmlns="http://www.cellml.org/cellml/2.0#" xmlns:xlink="http://www.w3.org/1999/xlink" name="%s">\n'
+    a, b = rng.choice([1, 2, -1]), rng.choice([1, 2, 3])
+    std, other = rng.choice([('kilogram', 'second'), ('metre', 'ampere'), ('second', 'kelvin')])
+    three = rng.random() < 0.4
+    defs = ['<units name="U"><unit units="V" exponent="%d"/><unit units="W" exponent="%d"/>%s</units>' % (a, b, '<unit units="base"/>' if three else ''),
+            '<units name="V"><unit units="base" exponent="2"/></units>', '<units name="W"><unit units="base" exponent="3"/></units>', '<units name="base"><unit units="%s"/></units>' % std]
+    rng.shuffle(defs)
+    total = 2 * a + 3 * b + (1 if three else 0)
+    if total in (1, 2, 3):
+        # `ref` would be equivalent to base, V or W: the shape of known finding C06-shared-child-units-moved (probed separately)
+        return units_import_world(rng)
+    clash = ['<units name="base"><unit units="%s" prefix="milli"/></units>' % other]
+    if rng.random() < 0.4:
+        clash.append('<units name="%s"><unit units="%s" exponent="2"/></units>' % (rng.choice(['V', 'W']), other))
+    users = ''.join('<variable name="k%d" units="%s" initial_value="1"/>' % (i, re.search(r'name="(\w+)"', c).group(1)) for i, c in enumerate(clash))
+    origin = (H % 'main' + '  <import xlink:href="lib.cellml"><units units_ref="U" name="%s"/></import>\n' % rng.choice(['U', 'U', 'imported_u']))
+    uname = re.search(r'name="(\w+)"/></import>', origin).group(1)
+    body = clash + ['<units name="ref"><unit units="%s" exponent="%d"/></units>' % (std, total)]
+    rng.shuffle(body)
+    origin += ''.join('  ' + x + '\n' for x in body)
+    origin += ('  <component name="c1"><variable name="x" units="%s" interface="public" initial_value="1"/></component>\n'
+               '  <component name="c2"><variable name="y" units="ref" interface="public"/>%s</component>\n'
+               '  <connection component_1="c1" component_2="c2"><map_variables variable_1="x" variable_2="y"/></connection>\n</model>\n') % (uname, users)
+    return {'origin.cellml': origin, 'lib.cellml': H % 'lib' + ''.join('  ' + x + '\n' for x in defs) + '</model>\n'}
+
+
 def run(chk, replay=None):
     lib = build_lib()
     hxi = build_hx('hx_import', lib)
@@ -328,6 +369,35 @@ def run(chk, replay=None):
                 oracle.append((err, rec))
             else:
                 name_lines.append('(names (m1 a) (a a_1) 1)'); name_meta.append((sorted(component_names(res['dump'])), rec))
+        # the input of known finding C06-shared-child-units-moved, always replayed
+        if not replay:
+            err, res = flatten_world(hxi, SHARED_CHILD, wd)
+            stats['shared_child_probe'] = (res or {}).get('valid')
+            if res and res.get('resolved') and res.get('flat') == 'model' and res.get('valid'):
+                kfs = {f['id']: f for f in known_findings()['findings'] if f['property'] == 'C06'}
+                if 'C06-shared-child-units-moved' in kfs:
+                    chk.known_finding(kfs['C06-shared-child-units-moved']['what'])
+                else:
+                    oracle.append(('imported units change their meaning through flattening: the flat model is not valid: %s' % res['valid'][:1], {'files': SHARED_CHILD, 'kind': 'units-import'}))
+            elif not res or not res.get('resolved') or res.get('flat') != 'model':
+                oracle.append(('the shared-child probe is not resolved / flattened: %s' % err, {'files': SHARED_CHILD, 'kind': 'units-import'}))
+        # imported units whose definition reaches a clashing child units through several references
+        for _ in range(0 if replay else (25 if chk.tier == 'quick' else 250)):
+            uw = units_import_world(rng)
+            stats['units_import_worlds'] = stats.get('units_import_worlds', 0) + 1
+            err, res = flatten_world(hxi, uw, wd)
+            rec = {'files': uw, 'kind': 'units-import'}
+            if err and err.startswith('skip') and res:
+                # before the imports are resolved the validator cannot know what the imported units are (it reports the connection):
+                # what counts is the flat model, valid exactly when U has kept its meaning
+                if not res['resolved'] or res['flat'] != 'model':
+                    oracle.append(('the imports of a resolvable world are not resolved / flattened: %s' % (res['resolve_issues'] + res['flat_issues'])[:2], rec))
+                elif res['valid']:
+                    oracle.append(('imported units change their meaning through flattening: the flat model is not valid: %s' % res['valid'][:1], rec))
+                elif res['lib0'] != res['lib1'] or res['hasimports'] != '0':
+                    oracle.append(('flattenModel changes a model of the library or leaves imports', rec))
+            elif err:
+                oracle.append((err, rec))
         model = run_lines(drv, ['flatten'], name_lines)[1] if os.path.exists(drv) and name_lines else []
         for (names, rec), m in zip(name_meta, model):
             if sorted(m.split()) != names:
